@@ -214,6 +214,15 @@ func candidates(w *world.World) []*world.World {
 	if w.Sched.TickProb > 0 {
 		add(func(c *world.World) bool { c.Sched.TickProb = 0; return true })
 	}
+	if w.Sched.JumpProb > 0 {
+		add(func(c *world.World) bool { c.Sched.JumpProb = 0; return true })
+	}
+	if w.Sched.LateProb > 0 {
+		add(func(c *world.World) bool { c.Sched.LateProb, c.Sched.LateMax = 0, 0; return true })
+		if w.Sched.LateProb < 1 {
+			add(func(c *world.World) bool { c.Sched.LateProb = 1; return true })
+		}
+	}
 	if w.Sched.Burst > 0 && w.Sched.Strategy != "serial" {
 		add(func(c *world.World) bool { c.Sched.Burst = 0; return true })
 		add(func(c *world.World) bool { c.Sched.Burst *= 4; return true })
